@@ -731,3 +731,144 @@ contract(VER + 'verify_rex_constraint', props=['C01', 'C02', 'C06', 'C08'],
          ensures=[('doc', 'result == spec_rex(self.col, constraint.value)')]
          + _hook('detect_rex_constraint', "self.col.ttype == 'string'"),
          derived=['hook-code'], result=T.bool, spec_env=ENV)
+
+
+# ---------------------------------------------------------------------------
+# Discovery (C07 exact statistics; C01 never raises)
+# ---------------------------------------------------------------------------
+
+def discoverer_view(it):
+    mod = extract.load_module('tdda/constraints/baseconstraints.py')
+    rc = mod.classes['BaseConstraintDiscoverer']
+    colname = it.fresh_str('colname')
+    col = make_col(it, 'col', ttypes=('bool', 'int', 'real', 'string', 'date', 'other'),
+                   exists=True, nunique=True)
+    o = SObj('BaseConstraintDiscoverer', {
+        'col': col, 'colname': colname,
+        'inc_rex': it.fresh(T.bool, 'inc_rex'),
+        'seed': it.fresh(T.opt(T.int), 'seed'),
+        'flavour': 'pandas',
+    }, label='self')
+    o.repo_class = rc
+    return o
+
+
+_fr = acalc('find_rexes', params=dict(colname=T.str, values=None, seed=None),
+            requires=[THIS_COL, _STRCOL,
+                      ('values-are-the-column-values',
+                       'values is None or (forall_nn(self.col, lambda x: x in values))')],
+            result=T.list(T.str),
+            ensures=[('C03-every-value-matched',
+                      'forall_nn(self.col, lambda x: rex_match(result, x))')],
+            trusted_note='this IS property C03 (rexpy.extract covers every example); imported')
+_fr.defaults = {'values': None, 'seed': None}
+
+_CTOR_INLINE = [BASE + n for n in (
+    'Constraint.__init__', 'Constraint.check_validity', 'constraint_class',
+    'MinConstraint.__init__', 'MaxConstraint.__init__', 'SignConstraint.__init__',
+    'TypeConstraint.__init__', 'MaxNullsConstraint.__init__',
+    'NoDuplicatesConstraint.__init__', 'AllowedValuesConstraint.__init__',
+    'MinLengthConstraint.__init__', 'MaxLengthConstraint.__init__',
+    'RexConstraint.__init__', 'FieldConstraints.__init__',
+    'native_definite', 'UnicodeDefinite')]
+
+_DISC_CLAUSES = [
+    ('other-type-nothing', "implies(self.col.ttype == 'other', result is None)"),
+    ('type', "self.col.ttype == 'other' or disc_type(self.col, result.constraints)"),
+    ('max_nulls', "self.col.ttype == 'other' or disc_max_nulls(self.col, result.constraints)"),
+    ('min', "self.col.ttype == 'other' or disc_min(self.col, result.constraints)"),
+    ('max', "self.col.ttype == 'other' or disc_max(self.col, result.constraints)"),
+    ('min_length', "self.col.ttype == 'other' or disc_min_length(self.col, result.constraints)"),
+    ('max_length', "self.col.ttype == 'other' or disc_max_length(self.col, result.constraints)"),
+    ('sign', "self.col.ttype == 'other' or disc_sign(self.col, result.constraints)"),
+    ('no_duplicates', "self.col.ttype == 'other' or disc_no_duplicates(self.col, result.constraints)"),
+    ('allowed_values', "self.col.ttype == 'other' or disc_allowed_values(self.col, result.constraints, 20)"),
+    ('rex', "self.col.ttype == 'other' or disc_rex(self.col, result.constraints, self.inc_rex)"),
+    ('field-name', "self.col.ttype == 'other' or result.name is fieldname"),
+    ('only-known-kinds', "self.col.ttype == 'other' or all(k in ('type', 'min', 'max', 'min_length', "
+     "'max_length', 'sign', 'max_nulls', 'no_duplicates', 'allowed_values', 'rex') "
+     "for k in result.constraints)"),
+]
+
+contract(DISC + 'discover_field_constraints', props=['C01', 'C07', 'C08'],
+         params=dict(fieldname=T.str), self_view=discoverer_view,
+         requires=[('this-column', 'fieldname == self.colname')],
+         ensures=_DISC_CLAUSES, inline=_CTOR_INLINE, result=T.opaque, spec_env=ENV)
+
+
+# ---------------------------------------------------------------------------
+# C01 closure lemmas: what discovery returns (its postcondition, C07) satisfies
+# the documented meaning of every kind (the verifiers' postcondition, C02),
+# for every column view.  No code involved: holds as long as both contracts do.
+# ---------------------------------------------------------------------------
+from pyvc.contracts import lemma
+
+
+def _closure_setup(kind, value_td, extra=None):
+    def setup(it):
+        col = make_col(it, 'col', ttypes=RECOGNISED, exists=True, nunique=True)
+        rec = SObj('Rec', {'value': it.fresh(value_td(col), 'K.%s.value' % kind), 'precision': None})
+        env = {'col': col, 'K': {kind: rec}, 'v': rec.attrs['value'],
+               'eps': it.fresh(T.real, 'eps')}
+        if extra:
+            env.update(extra(it, col, env))
+        return env
+    return setup
+
+
+def _same(col):
+    return _valtd(col)
+
+
+def _sign_extra(it, col, env):
+    mn = SObj('Rec', {'value': it.fresh(_valtd(col), 'K.min.value'), 'precision': None})
+    mx = SObj('Rec', {'value': it.fresh(_valtd(col), 'K.max.value'), 'precision': None})
+    env['K']['min'] = mn
+    env['K']['max'] = mx
+    return {}
+
+
+lemma('C01.closure.min', props=['C01'], spec_env=ENV,
+      setup=_closure_setup('min', _same),
+      assumes=["col.ttype != 'string'", 'eps >= 0', "disc_min(col, K)", "'min' in K and col.nn > 0"],
+      proves=[('verifies', "spec_min(col, v, 'fuzzy', eps)")])
+lemma('C01.closure.max', props=['C01'], spec_env=ENV,
+      setup=_closure_setup('max', _same),
+      assumes=["col.ttype != 'string'", 'eps >= 0', "disc_max(col, K)", "'max' in K and col.nn > 0"],
+      proves=[('verifies', "spec_max(col, v, 'fuzzy', eps)")])
+lemma('C01.closure.min_length', props=['C01'], spec_env=ENV,
+      setup=_closure_setup('min_length', lambda col: T.int),
+      assumes=["col.ttype == 'string'", "disc_min_length(col, K)", "col.nn > 0"],
+      proves=[('verifies', "spec_min_length(col, v)")])
+lemma('C01.closure.max_length', props=['C01'], spec_env=ENV,
+      setup=_closure_setup('max_length', lambda col: T.int),
+      assumes=["col.ttype == 'string'", "disc_max_length(col, K)", "col.nn > 0"],
+      proves=[('verifies', "spec_max_length(col, v)")])
+lemma('C01.closure.max_nulls', props=['C01'], spec_env=ENV,
+      setup=_closure_setup('max_nulls', lambda col: T.int),
+      assumes=["disc_max_nulls(col, K)", "col.N > 0 and col.n0 < 2"],
+      proves=[('verifies', "spec_max_nulls(col, v)")])
+lemma('C01.closure.no_duplicates', props=['C01'], spec_env=ENV,
+      setup=_closure_setup('no_duplicates', lambda col: T.const(True)),
+      assumes=["disc_no_duplicates(col, K)", "'no_duplicates' in K"],
+      proves=[('verifies', "spec_no_duplicates(col, v)")])
+lemma('C01.closure.allowed_values', props=['C01'], spec_env=ENV,
+      setup=_closure_setup('allowed_values', lambda col: T.list(T.str)),
+      assumes=["col.ttype == 'string'", "disc_allowed_values(col, K, 20)",
+               "col.nunique >= 1 and col.nunique <= 20"],
+      proves=[('verifies', "spec_allowed_values(col, v)")])
+lemma('C01.closure.rex', props=['C01'], spec_env=ENV,
+      setup=_closure_setup('rex', lambda col: T.list(T.str)),
+      assumes=["col.ttype == 'string'", "disc_rex(col, K, True)"],
+      proves=[('verifies', "spec_rex(col, v)")])
+lemma('C01.closure.type', props=['C01'], spec_env=ENV,
+      setup=_closure_setup('type', lambda col: T.const(col.attrs['ttype'])),
+      assumes=["disc_type(col, K)"],
+      proves=[('verifies-strict', "spec_type(col, v, 'strict')"),
+              ('verifies-sloppy', "spec_type(col, v, 'sloppy')")])
+lemma('C01.closure.sign', props=['C01'], spec_env=ENV,
+      setup=_closure_setup('sign', lambda col: T.enum('positive', 'non-negative', 'zero',
+                                                     'non-positive', 'negative'), _sign_extra),
+      assumes=["is_numeric_ttype(col.ttype)", "col.nn > 0", "disc_min(col, K)", "disc_max(col, K)",
+               "disc_sign(col, K)", "'sign' in K"],
+      proves=[('verifies', "spec_sign(col, v)")])
